@@ -155,11 +155,22 @@ def c20_c(ctx: Ctx):
                 out.append(ctx.ok(R, f, h, f"handler for {types} cannot catch IncompatibleSchemaVersion"))
     # what the `except RuntimeError: pass` of _raise_if_older_schema may swallow: only 'no loadable legacy config here'
     gv = ctx.fn(MIG + ":_get_config_schema_version")
+    gcfg = ctx.cfg(gv)
+    # the loader attempts: statements that call _CONFIG_LOADERS[<version>](...)
+    loads = [n for n in gcfg.stmt_nodes() if n.kind == "stmt" and any(isinstance(c, ast.Call) and isinstance(c.func, ast.Subscript) and "_CONFIG_LOADERS" in canon(c.func.value)
+                                                                     for c in walk_no_nested(n.ast))]
+    after_success = set()
+    if loads:
+        starts = [b for ln in loads for (b, kk, _f) in gcfg.succ.get(ln.id, []) if kk == "n"]
+        after_success = gcfg.reachable(starts, blocked={ln.id for ln in loads}, kinds="n") | set(starts)
     for r in [n for n in body_nodes(gv) if isinstance(n, ast.Raise) and n.exc is not None]:
         nm = dotted(r.exc.func if isinstance(r.exc, ast.Call) else r.exc) or ""
         pmg = ctx.parents(gv)
         par = pmg.get(id(r))
         in_for_else = isinstance(par, ast.For) and any(r is x for x in par.orelse)
+        # equivalently: the raise cannot be reached once some loader has returned normally (only by running out of loaders)
+        if not in_for_else and loads and not any(i in after_success for i in ctx.node_ids(gv, r)):
+            in_for_else = True
         k = f"{gv.qual}|raise:{stmt_key(r, 50)}"
         if in_for_else:
             out.append(ctx.ok(R, gv, r, "the only error of the version probe is 'no loader could read a config file' (for-else)", construct=k))
@@ -243,6 +254,19 @@ def c20_d(ctx: Ctx):
                 in_with = True
             prev = cur
             cur = pm.get(id(cur))
+        if not in_else:
+            # equivalent shape: the bump follows the try and every handler of that try leaves (re-raises), i.e. the bump cannot be reached through an
+            # exception edge out of the migrate() call
+            cfgm = ctx.cfg(f)
+            migs = [n for n in cfgm.stmt_nodes() if n.kind == "stmt" and any(isinstance(c, ast.Call) and isinstance(c.func, ast.Name) and c.func.id == MIGRATE for c in walk_no_nested(n.ast))]
+            if migs:
+                exc_starts = [bb for mn in migs for (bb, kk, _f) in cfgm.succ.get(mn.id, []) if kk in "xu"]
+                via_exc = cfgm.reachable(exc_starts, kinds="nx") | set(exc_starts)
+                norm_starts = [bb for mn in migs for (bb, kk, _f) in cfgm.succ.get(mn.id, []) if kk == "n"]
+                via_norm = cfgm.reachable(norm_starts, kinds="n") | set(norm_starts)
+                bids = set(ctx.node_ids(f, b))
+                if exc_starts and not (bids & via_exc) and (bids & via_norm):
+                    in_else = True
         if in_else and in_with:
             out.append(ctx.ok(R, f, b, "the version bump is in the else-branch of the migration step, inside the migration lock"))
         elif not in_else:
